@@ -18,7 +18,7 @@ impl Property for C14 {
             real: &["src/hot_reloading/records.rs (RECORDING thread-local, record / no_record, CellGuard, reloader identity check)", "src/anycache.rs (where file / directory / asset dependencies are recorded)", "src/asset.rs (load_and_record)", "src/cache.rs (no_record)"],
             stub: &["helper threads are simulated threads spawned and joined inside Compound::load", "a second hot cache with its own in-memory source", "channels / locks / scheduler (detsim)"],
             assumptions: &["the set of handles whose reload id moves after editing exactly one entry must equal the model's reverse closure for that entry; inside loads the recorder pointer is sampled through hook H7 (non-null and unchanged after every nested load / no_record block / caught panic, null on helper threads)"],
-            runs: (16_000, 800_000),
+            runs: (55_000, 1_800_000),
         }
     }
     fn generate(&self, g: &mut SplitMix, k: &mut SplitMix, _tier: Tier) -> (Knobs, Value) {
